@@ -169,6 +169,13 @@ func enumerateGridSpecs(rng *rand.Rand, p c05Proto, thorough bool) []injSpec {
 			pick = append(pick, sp)
 			continue
 		}
+		// scalars: the group order and its double by the first sender in every single-valued field (a value that is zero
+		// modulo q but not zero is what a plain zero test lets through)
+		if (sp.Kind == "g:q" || sp.Kind == "g:2q") && sp.Dev == first[sp.Type] && !strings.Contains(p.name, "@") && cnt["q/"+sp.Type+"."+sp.Field+sp.Kind] < 1 && isSingleField(sp, specs) {
+			cnt["q/"+sp.Type+"."+sp.Field+sp.Kind]++
+			pick = append(pick, sp)
+			continue
+		}
 		if cnt[k] < 1 {
 			cnt[k]++
 			pick = append(pick, sp)
@@ -510,4 +517,14 @@ func protocolLevelC06(r *Run, rng *rand.Rand, thorough bool) {
 			r.Assert(len(ir.Panics) == 0 && !ir.Stalled, "protocol/"+site, "update-returns-and-process-keeps-running", func() string { return s.String() + " " + strings.Join(ir.Panics, "; ") })
 		}
 	}
+}
+
+// isSingleField: the field of this spec is not a list (only element 0 was ever enumerated for it)
+func isSingleField(sp injSpec, all []injSpec) bool {
+	for _, o := range all {
+		if o.Type == sp.Type && o.Field == sp.Field && o.Elem != 0 {
+			return false
+		}
+	}
+	return true
 }
